@@ -99,7 +99,19 @@ def permsAux : List Id → List (List Id)
 
 def perms (l : List Id) : List (List Id) := if l.length > 4 then [l, l.reverse] else permsAux l
 
-def ordK (k : Nat) (l : List Id) : List Id := (perms l).getD k l
+/-- the target lists with two or more elements that `Generate` will meet (one per apk with such an SBOM) -/
+def multiLists (o : Opts) (fs : SbomDir) : List (List Id) :=
+  (o.apks.filterMap fun a =>
+    match locate fs (sbomStems a.name a.version) with
+    | .ok (some (.doc emb)) => let ts := targets emb a.name; if ts.length ≥ 2 then some ts else none
+    | _ => none).eraseDups
+
+/-- all ways of choosing one rearrangement per list (capped) -/
+def choices : List (List Id) → List (List (List Id × List Id))
+  | [] => [[]]
+  | l :: rest => ((perms l).flatMap fun p => (choices rest).map fun c => (l, p) :: c).take 64
+
+def ordOf (c : List (List Id × List Id)) (l : List Id) : List Id := (c.lookup l).getD l
 
 def triple (impl spec cls : String) : String := impl ++ "\t" ++ spec ++ "\t" ++ cls
 
@@ -136,8 +148,8 @@ def handle (args : List String) : Option String :=
     let o : Opts := ⟨unhexS dig, parseStrs layers, unhexS vcs, unhexS osv,
                      (splitL ";" apks).map parseApk⟩
     let fs : SbomDir := (splitL "/" fsS).map parseEntry
-    let ks := if multiTarget o fs then List.range 24 else [0]
-    let cands := ks.map fun k => showRes (generate o fs (ordK k))
+    -- Go ranges over a map of target ids: every assignment of an order to each multi-target list is possible
+    let cands := (choices (multiLists o fs)).map fun c => showRes (generate o fs (ordOf c))
     let impl := if cands.contains goRes then goRes else cands.headD ""
     let why := match parseRes goRes with
       | some d => oracle o fs d
